@@ -35,7 +35,7 @@ def parent_init(tier, seed):
 
 
 def plan(tier, seed):
-    return [{'k': 'r'} for _ in range(1500 if tier == 'quick' else 200000)]
+    return [{'k': 'r'} for _ in range(1500 if tier == 'quick' else 120000)]
 
 
 def add_twin(r, tree):
